@@ -4,7 +4,7 @@ import json, subprocess, sys, os
 ROOT = os.path.dirname(os.path.dirname(os.path.abspath(__file__)))
 DONE = {
  # id: (technique, level text, level note, design ref)
- "C01": ("property-based differential testing against a brute-force reference model (proptest, sharded), tolerances from measured input sensitivity; plus metamorphic testing without a reference (relabelling, reflection, axis permutation, exact power-of-two scaling) on larger inputs",
+ "C01": ("property-based differential testing against a brute-force reference model (proptest, sharded), tolerances from measured input sensitivity; plus metamorphic testing without a reference (relabelling, reflection, axis permutation, exact power-of-two scaling) on larger inputs; thorough tier adds a coverage-guided libFuzzer campaign (cargo-fuzz target fz_c01, 16 jobs x 60 000 executions) on the metamorphic oracle",
          "Exploration: thousands of generated point sets (13 families incl. degenerate ones, 1D/2D/3D, periodic or not, anisotropic boxes, large offsets), every cell compared in both directions with an independent brute-force Voronoi cell (volume, centroid, complete face map with neighbour identity / shift / area / centroid, vertices). A second stream (n to 300 / 1200) compares every cell of the tessellation with that of the relabelled / reflected / axis-permuted / power-of-two-scaled input through the transform. Finds missing or spurious neighbours, wrong security radius / termination / image enumeration; cannot establish absence.",
          "Trusted: the harness' reference model (validated by `mvv selftest` against direct nearest-site queries), the tolerance policy (8x measured variation under input rounding + 2^14 u L kappa floor). Exempt: faces/vertices of cells with an ill-conditioned vertex, face areas in 1D/2D for coordinates > 1e10 (known findings), inputs whose arrangement is not determined up to rounding.", "5 C01, 4"),
  "C02": ("property-based invariant testing (proptest, sharded): positivity and tiling of the box, three integration routes",
